@@ -1,12 +1,13 @@
 (* Extraction of the record-layer model (Rec/RecordModel.v) together with the specifications it is run
    with in the correspondence check: SM4 (SM4/SM4Spec.v), HMAC-SM3 (SM3/HMACSpec.v), GCM (Rec/GcmRef.v).
+   For the capture cases the key block is derived with Agree/KeyModel.v (PRF of GM/T 0024 over HMAC-SM3).
    Directives used: those of ExtrOcamlBasic only; nat, positive, N stay Coq's inductive types. *)
 From Coq Require Import Extraction ExtrOcamlBasic List NArith.
-From GmsmVerif Require Import Lib.Outcome SM4.SM4Spec SM3.SM3Spec SM3.HMACSpec Rec.GcmRef Rec.RecordSpec Rec.RecordModel.
+From GmsmVerif Require Import Lib.Outcome SM4.SM4Spec SM3.SM3Spec SM3.HMACSpec Rec.GcmRef Rec.RecordSpec Rec.RecordModel Rec.RecordSM4 Agree.KeyModel.
 Extraction Language OCaml.
 Extraction "rec_model.ml"
   RecordModel.encrypt RecordModel.decrypt RecordModel.extractPadding RecordModel.roundUp
   RecordModel.padToBlockSize RecordModel.incSeq RecordModel.conn_Write RecordModel.recv_all
-  RecordModel.read_calls RecordModel.apply_script RecordModel.readRecord RecordModel.write_calls
+  RecordModel.read_calls RecordModel.apply_script RecordModel.readRecord RecordModel.write_calls RecordModel.sendAlertLocked RecordModel.readRecords_hs
   RecordSpec.tls_pad_ok
-  sm4_round_keys sm4_encrypt_rk sm4_decrypt_rk hmac_sm3 GcmRef.gcm_seal GcmRef.gcm_open.
+  RecordSM4.sm4_prims KeyModel.keysFromMasterSecret_model sm4_round_keys sm4_encrypt_rk sm4_decrypt_rk hmac_sm3 GcmRef.gcm_seal GcmRef.gcm_open.
